@@ -8,6 +8,7 @@ TV  : pairs (trough-centred analysis of s, peak-centred analysis of -s) from the
 """
 import mc_feat
 import relations
+import tables_tv
 
 PREFIXES = ['C09.']
 
@@ -18,10 +19,12 @@ def run(ctx):
         mc_feat.run_shape(ctx, 'C09', 4, 2)
         mc_feat.run_burstfeat(ctx, 'C09', 3, 0, 2, 2)
         relations.run(ctx, 'C09.mirror', 150, PREFIXES, 9)
+        tables_tv.run_rename(ctx, PREFIXES, 30, 91)
     else:
         mc_feat.run_shape(ctx, 'C09', 6, 2)
         mc_feat.run_burstfeat(ctx, 'C09', 4, -1, 1, 2)
         relations.run(ctx, 'C09.mirror', 3000, PREFIXES, 9, max_len=2600)
+        tables_tv.run_rename(ctx, PREFIXES, 400, 91)
 
 
 def replay(ctx, case):
